@@ -407,6 +407,12 @@ def run(ck):
     ck.coverage["evaluations"] += nreuse
     # which symmetry the file is read with: theorems, source tie, stream
     oks, infos = ck.lean_obligations("DS.Props.C07Sym")
+    # ... composed with the table theorems of C11 on the generated settings (any reordering of a tabulated list is that setting)
+    okst, infost = ck.lean_obligations("DS.Props.C07SymTables")
+    if not okst:
+        oks = False
+        infos = {**infos, "failed_modules": list(infos.get("failed_modules") or []) + list(infost.get("failed_modules") or ["DS.Props.C07SymTables"]),
+                 "errors": list(infos.get("errors") or []) + list(infost.get("errors") or [])}
     tiesym_ok, tiesym_info = ck.source_tie("DS.Props.SrcCifSym", groups=("cifsym",))
     # the expansion step (T19): `DS.Cif.expand` IS the transliterated `_expandAsymmetricUnit` under the interface `EauOf`
     tieexp_ok, tieexp_info = ck.source_tie("DS.Props.SrcCifExpand", groups=("cifsym",))
